@@ -70,7 +70,23 @@ func lagSeen() time.Duration { return time.Duration(lagMax.Load()) }
 
 // retryStalled runs a scenario; when the process was stalled during it (canary lag above `limit`) or its setup failed /
 // a wall-clock oracle fired while some stall was seen, the scenario is run again (at most five times).
+// failedScenarios counts failing scenarios of this executor process: on a broken tree every scenario runs into its
+// timeouts; after 25 failures the remaining lines of this process are answered at once (each of them is still a failing
+// line, and replaying it alone runs it in full).
+var failedScenarios atomic.Int64
+
 func retryStalled(limit time.Duration, run func() string) string {
+	if failedScenarios.Load() >= 25 {
+		return "FAIL not-run (25 scenarios already failed in this executor; replay this line alone to run it)"
+	}
+	ans := retryStalled1(limit, run)
+	if strings.HasPrefix(ans, "FAIL") {
+		failedScenarios.Add(1)
+	}
+	return ans
+}
+
+func retryStalled1(limit time.Duration, run func() string) string {
 	var ans string
 	for attempt := 0; attempt < 5; attempt++ {
 		lagReset()
